@@ -1,7 +1,7 @@
 CONSTANTS
-  Variant = "code"
-  MaxNE = 3
-  TransferModes = {"identity", "population"}
+  Variant = "r3g-ordered"
+  MaxNE = 2
+  TransferModes = {"identity", "population", "coherence", "all"}
 SPECIFICATION Spec
 INVARIANT Complete
 INVARIANT Sound
